@@ -7056,40 +7056,49 @@ class _RoundShape(Shape):
 
         Converts the parameters from an ellipse or a circle to a string for a
         Path object d-attribute"""
+        # The arcs are built in the shape's own user space and then mapped through the transform as segments:
+        # the image of an ellipse under a shear or a non-uniform scale is not the ellipse with the mapped radii.
         original = self.apply
-        self.apply = transformed
-        path = Path()
-        steps = 4
-        step_size = tau / steps
-        if (
-            transformed
-            and self.transform.value_scale_x() * self.transform.value_scale_y() < 0
-        ):
-            step_size = -step_size
-        t_start = 0
-        t_end = step_size
-        # zero for either dimension, or a computed value of auto for both dimensions, disables rendering of the element.
-        rx = self.implicit_rx
-        ry = self.implicit_ry
-        if self.is_degenerate():
-            return ()
-        center = self.implicit_center
-        path.move((self.point_at_t(0)))
-        for i in range(steps):
-            path += Arc(
-                self.point_at_t(t_start),
-                self.point_at_t(t_end),
-                center,
-                rx=rx,
-                ry=ry,
-                rotation=self.rotation,
-                sweep=step_size,
-            )
-            t_start = t_end
-            t_end += step_size
-        path.closed()
-        self.apply = original
-        return path.segments(transformed)
+        self.apply = False
+        try:
+            if self.is_degenerate():
+                # zero for either dimension disables rendering of the element.
+                return ()
+            path = Path()
+            steps = 4
+            step_size = tau / steps
+            if transformed and (
+                (self.transform.value_scale_x() * self.transform.value_scale_y() < 0)
+                != (self.transform.determinant < 0)
+            ):
+                # Historic direction rule: the transformed shape runs clockwise exactly when
+                # scale_x * scale_y < 0. Mapping the segments flips the direction when the determinant
+                # is negative; where the two disagree the ellipse is walked backwards in its own space.
+                step_size = -step_size
+            t_start = 0
+            t_end = step_size
+            rx = self.implicit_rx
+            ry = self.implicit_ry
+            center = self.implicit_center
+            path.move((self.point_at_t(0)))
+            for i in range(steps):
+                path += Arc(
+                    self.point_at_t(t_start),
+                    self.point_at_t(t_end),
+                    center,
+                    rx=rx,
+                    ry=ry,
+                    rotation=self.rotation,
+                    sweep=step_size,
+                )
+                t_start = t_end
+                t_end += step_size
+            path.closed()
+        finally:
+            self.apply = original
+        if transformed and not self.transform.is_identity():
+            return [s * self.transform for s in path._segments]
+        return path._segments
 
     def reify(self):
         """
